@@ -128,3 +128,64 @@ func HarnessWSCorrelation() {
 	verif.Assert(verif.LeftoverLib() == 0, "no-library-goroutine-left")
 	verif.Reach("correlation-done")
 }
+
+// HarnessCancelDuringTraffic: calls are in flight and being issued on one client
+// while the context of one of them is cancelled at an arbitrary instant; the peer
+// answers every request it receives straight away. Every call returns exactly
+// once: the cancelled one with its own result or an error, every other one with
+// its own result.
+func HarnessCancelDuringTraffic() {
+	l := verif.ListenWS()
+	go func() {
+		verif.Daemon()
+		pc := l.Accept()
+		for {
+			b, ok := pc.Recv()
+			if !ok {
+				return
+			}
+			var r wireReq
+			if json.Unmarshal(b, &r) != nil || r.ID == nil || r.Method != "NS.Echo" {
+				continue
+			}
+			rb, _ := json.Marshal(map[string]interface{}{"jsonrpc": "2.0", "id": r.ID, "result": r.Params[0]})
+			pc.Send(rb)
+		}
+	}()
+	var c C
+	closer, err := jsonrpc.NewMergeClient(context.Background(), l.URL(), "NS", []interface{}{&c}, nil, jsonrpc.WithNoReconnect())
+	verif.Assert(err == nil, "client-created")
+	n := verif.Bound("N", 3)
+	res := make([]result, n)
+	ctx0, cancel0 := context.WithCancel(context.Background())
+	for i := 0; i < n; i++ {
+		i := i
+		go func() {
+			ctx := context.Background()
+			if i == 0 {
+				ctx = ctx0
+			} else {
+				verif.AtStep("issue"+string(rune('0'+i)), verif.Bound("steps", 12))
+			}
+			v, err := c.Echo(ctx, int64(10+i))
+			res[i].returns++
+			res[i].val, res[i].err = v, err
+		}()
+	}
+	go func() {
+		verif.AtStep("cancel_at", verif.Bound("steps", 12))
+		cancel0()
+	}()
+	verif.Quiesce()
+	for i := 0; i < n; i++ {
+		verif.Assert(res[i].returns == 1, "every-call-returns-exactly-once")
+		if i == 0 {
+			verif.Assert(res[i].err != nil || res[i].val == 10, "cancelled-call-own-result-or-error")
+		} else {
+			verif.Assert(res[i].err == nil && res[i].val == int64(10+i), "other-calls-get-their-own-results")
+		}
+	}
+	closer()
+	verif.Quiesce()
+	verif.Reach("cancel-during-traffic-done")
+}
